@@ -365,6 +365,18 @@ class SBytes:
     def __repr__(self):
         return "<SBytes len=%d>" % len(self.b)
 
+    def __str__(self):
+        c = self.concrete()
+        if c is not None:
+            return str(c)
+        raise Unsupported("str() of symbolic bytes (would silently become a placeholder)")
+
+    def __format__(self, spec):
+        c = self.concrete()
+        if c is not None:
+            return format(c, spec)
+        raise Unsupported("format() of symbolic bytes")
+
 
 def _norm(sb):
     c = sb.concrete()
@@ -811,6 +823,17 @@ class SStr:
             if hit is not None:
                 out += list(hit)
                 wd += [None] * len(hit)
+                continue
+            if sym._forced(z3.ULT(ch, 0x100)):
+                # Latin-1 range: the exact mapping as a table (multi-character / ASCII results were split off above)
+                vals = []
+                for v in range(256):
+                    mm = chr(v).upper() if up else chr(v).lower()
+                    vals.append(ord(mm) if len(mm) == 1 else v)
+                r = sym.STable(vals, "latin1.upper" if up else "latin1.lower", 21)[SInt(z3.Extract(7, 0, ch), 8)]
+                out.append(chr(r) if isinstance(r, int) else (chr(r.concrete()) if r.concrete() is not None else
+                                                               (z3.ZeroExt(21 - r.e.size(), r.e) if r.e.size() < 21 else r.e)))
+                wd.append(None)
                 continue
             # any other non-ASCII character maps to one non-ASCII character (which one is left unconstrained)
             key = (ch.get_id(), up)
